@@ -77,6 +77,12 @@ def cases(tier, seed):
     for idx, _bundle in enumerate(bases):
         out.append(dict(id='flips-%d' % idx, kind='flips', base=idx))
         out.append(dict(id='bursts-%d' % idx, kind='bursts', base=idx, seed=seed * 977 + idx, count=1500 if thorough else 300))
+    # exhaustive single-octet substitution, sliced by offset so that the shards balance
+    for idx in (range(0, len(bases), 4) if thorough else (1, len(bases) - 1)):
+        size = len(bpv7.encode(bases[idx]))
+        step = 8
+        for lo in range(0, size, step):
+            out.append(dict(id='bytesub-%d-%d' % (idx, lo), kind='bytesub', base=idx, lo=lo, hi=lo + step))
     nbig = 60 if thorough else 8
     for idx in range(nbig):
         out.append(dict(id='big-%d' % idx, kind='big', seed=seed * 31337 + idx, count=800 if thorough else 250))
@@ -249,7 +255,7 @@ def run_case(case):
     violations = []
     sample = None
     kind = case['kind']
-    if kind in ('flips', 'bursts'):
+    if kind in ('flips', 'bursts', 'bytesub'):
         base = _base_bundles()[case['base']]
         enc = bpv7.encode(base)
         # the unmutated bundle must be accepted, otherwise the experiment is meaningless
@@ -266,6 +272,18 @@ def run_case(case):
                     mut = bytearray(enc)
                     mut[pos] ^= (1 << bit)
                     mutants.append(bytes(mut))
+        elif kind == 'bytesub':
+            # every substitution of one octet inside a CRC-protected block (every burst of up to 8 bits within an octet)
+            mutants = []
+            for (lo, hi, _crc_type) in _protected_spans(enc):
+                for pos in range(max(lo, case['lo']), min(hi, case['hi'])):
+                    for val in range(256):
+                        if val != enc[pos]:
+                            mut = bytearray(enc)
+                            mut[pos] = val
+                            mutants.append(bytes(mut))
+            if not mutants:
+                return dict(verdict='held', nontrivial=False, cls=set(), obs=obs, violations=[], sample=None, evaluations=0)
         else:
             rng = random.Random(case['seed'])
             spans = _protected_spans(enc)
